@@ -224,6 +224,7 @@ func main() {
 		}
 		c.Require("flagset.std", 1000)
 		c.Require("sigcheck.verified-only-by-lax-parsing", 1000)
+		c.Require("sigcache.repeat-verifications", 20000)
 		c.Require("boundary.stack.limit", 5)
 		c.Require("boundary.stack.limit+1", 5)
 		c.Require("boundary.ops.limit", 5)
